@@ -320,19 +320,34 @@ def wrap(ctx, jm: JoinModel, rule: str = "e.wrap") -> None:
     rets = [e for e in it.events if e.kind == "return" and e.depth == 0]
     final = max(rets, key=lambda e: e.seq) if rets else None
     t = final.term if final is not None else None
-    if t is None or not (t[0] == "call" and t[1] == ("name", "Table") and len(t[2]) == 1 and not t[3] and t[2][0][0] == "obj"):
+
+    def parts_of(x):
+        """list objects concatenated with + (in order)"""
+        if x[0] == "obj":
+            return [x]
+        if x[0] == "bin" and x[1] == "Add":
+            a, b = parts_of(x[2]), parts_of(x[3])
+            return a + b if a is not None and b is not None else None
+        if x[0] == "call" and x[1] in (("name", "list"), ("name", "tuple")) and len(x[2]) == 1:
+            return parts_of(x[2][0])
+        return None
+    rcs = parts_of(t[2][0]) if (t is not None and t[0] == "call" and t[1] == ("name", "Table") and len(t[2]) == 1 and not t[3]) else None
+    if not rcs:
         ctx.ob(rule, f, "wrap", False, "final return is not Table(<result columns>)", final.node if final else f.node,
                message=f"{jm.variant}: final return is not Table(<list of result columns>) (`{jm.sh(t) if t else '?'}`)")
         return
-    rc = t[2][0]
-    o = it.objs[rc[1]]
-    if o.init:
-        problems.append(("the result column list does not start empty", o.node))
     segs = []
-    for e in it.events:
-        if e.kind == "call" and e.term[1][0] == "attr" and e.term[1][1] == rc and e.term[1][2] != "append":
-            problems.append((f"result column list is modified by .{e.term[1][2]}()", e.node))
-    for e in elements(it, rc):
+    all_elements = []
+    for rc in rcs:
+        o = it.objs[rc[1]]
+        if o.init:
+            problems.append(("the result column list does not start empty", o.node))
+        for e in it.events:
+            if e.kind == "call" and e.term[1][0] == "attr" and e.term[1][1] == rc and e.term[1][2] != "append":
+                problems.append((f"result column list is modified by .{e.term[1][2]}()", e.node))
+        all_elements += [(rc, e) for e in elements(it, rc)]
+    for rc, e in all_elements:
+        o = it.objs[rc[1]]
         v = e.value if e.kind == "elem" else (e.term[2][0] if e.kind == "call" and len(e.term[2]) == 1 else None)
         if e.kind == "store" or v is None:
             problems.append(("result column list is written by index", e.node))
@@ -489,10 +504,15 @@ _PURE_ITER = {"enumerate", "zip", "range", "len", "iter", "reversed"}
 
 
 def matched_set_add(jm: JoinModel, e: Event) -> bool:
-    """<some set>.add(<the bucket element of this pair>) """
+    """<some set>.add(<the bucket element of this pair>)  - or  <some set>.update(<the whole bucket>) for the probed left row"""
     t = e.term
-    return e.kind == "call" and t[1][0] == "attr" and t[1][2] == "add" and t[1][1][0] == "obj" and jm.it.objs[t[1][1][1]].kind == "set" \
-        and len(t[2]) == 1 and t[2][0][0] == "elem" and t[2][0][1] == jm.bucket and t[2][0][2] in jm.matched_loops
+    if not (e.kind == "call" and t[1][0] == "attr" and t[1][1][0] == "obj" and jm.it.objs[t[1][1][1]].kind == "set" and len(t[2]) == 1):
+        return False
+    if t[1][2] == "add":
+        return t[2][0][0] == "elem" and t[2][0][1] == jm.bucket and t[2][0][2] in jm.matched_loops
+    if t[1][2] == "update":
+        return t[2][0] == jm.bucket and jm.probe_loop in e.loops
+    return False
 
 
 def matched_facts(jm: JoinModel):
@@ -626,8 +646,14 @@ def sweep(ctx, jm: JoinModel) -> None:
     else:
         M = msets.pop()
         for e in adds:
+            if e.term[1][2] == "update":
+                # the whole bucket is recorded for the probed row: exactly under the matched guard, once per probe iteration
+                inside = jm.meaningful(e.conds[len(it.loops[jm.probe_loop].conds):])
+                if e.loops[-1] != jm.probe_loop or any(not jm.is_bucket_nonempty_test(c) for c in inside):
+                    problems.append(("the right rows of a matched left row are recorded only conditionally", e.node))
+                continue
             row_loop = e.term[2][0][2]
-            if e.conds[len(it.loops[row_loop].conds):] or e.loops[-1] != row_loop:
+            if jm.meaningful(e.conds[len(it.loops[row_loop].conds):]) or e.loops[-1] != row_loop:
                 problems.append(("the right row of an emitted pair is recorded only conditionally", e.node))
         for e in it.events:
             if e.kind == "call" and e.term[1][0] == "attr" and e.term[1][1] == M and not matched_set_add(jm, e) \
